@@ -12,6 +12,14 @@ INTERESTING = ("w.wrap", "w.wrap-reset", "w.block-full", "w.block-behind-tail", 
                "w.refused", "c.refused", "w.free-wrap")
 
 
+ASSUMPTIONS = [
+    "channel operations are atomic (each body of channel.c runs under the channel lock; discharged for the real code by C03's lock-discipline check)",
+    "size_t / lap-counter overflow is not modelled (needs 2^64 bytes or laps)",
+    "usage rules of the API (Op.wf): one writer alternating map/(commit|abort); a reader maps only when unmapped; at most 8 readers. Ill-formed operations are skipped identically by harness and model",
+    "the producer writes only inside the region it was handed (the model marks the whole region as overwritten at map time)",
+]
+
+
 def build(ctx):
     ok, log, failed = C.lake_build(["acq_chan"])
     if not ok:
